@@ -32,7 +32,7 @@ PROPS = {
     "C16": dict(fams=[walkfam("wake", "wake", 160, 2000), walkfam("wake", "sweep", 160, 2000), walkfam("wake", "spur", 160, 2000),
                       walkfam("wakechunk", "wake", 240, 3000), walkfam("wakechunk", "sweep", 160, 2000),
                       genfam("disc-compare", "disccmp", 1, 1), tlcfam("MC_Wake")], design=["MC_Wake"]),
-    "C17": dict(fams=[genfam("resume", "resume", 1, 1)], design=["MC_Resume"]),
+    "C17": dict(fams=[genfam("resume", "resume", 1, 1), tlcfam("MC_Resume")], design=["MC_Resume"]),
 }
 
 RELEVANT = {
